@@ -109,6 +109,16 @@ type world struct {
 	served  int
 	log     []string
 	members map[string]*url.URL
+	direct  map[string]bool // members registered directly on the wrapped balancer
+}
+
+// remove takes a member out of the pool the same way it was put in.
+func (w *world) remove(u *url.URL) error {
+	if w.direct[key(u)] {
+		delete(w.direct, key(u))
+		return w.rr.RemoveServer(u)
+	}
+	return w.p.RemoveServer(u)
 }
 
 func (w *world) logf(f string, a ...any) { w.log = append(w.log, fmt.Sprintf(f, a...)) }
@@ -219,7 +229,7 @@ func TestC11_Sessions(t *testing.T) {
 		clock.Freeze(epoch.Add(phase))
 		defer clock.Unfreeze()
 		var now time.Duration
-		w := &world{t: t, members: map[string]*url.URL{}}
+		w := &world{t: t, members: map[string]*url.URL{}, direct: map[string]bool{}}
 		w.cd = genCodec(t, 2, "c")
 		handler := http.HandlerFunc(func(rw http.ResponseWriter, r *http.Request) {
 			w.served++
@@ -253,7 +263,17 @@ func TestC11_Sessions(t *testing.T) {
 				vstat.Count("excluded_known_raw-semicolon", 1)
 				continue
 			}
-			if err := w.p.UpsertServer(u, roundrobin.Weight(rapid.IntRange(1, 3).Draw(t, "w"))); err != nil {
+			wt := roundrobin.Weight(rapid.IntRange(1, 3).Draw(t, "w"))
+			var err error
+			if useRB && rapid.IntRange(0, 3).Draw(t, "direct") == 0 {
+				// registered on the wrapped balancer itself (e.g. before the rebalancer was put in front):
+				// still a member of the pool the rebalancer reports and serves
+				err = w.rr.UpsertServer(u, wt)
+				w.direct[key(u)] = true
+			} else {
+				err = w.p.UpsertServer(u, wt)
+			}
+			if err != nil {
 				t.Fatalf("upsert: %v", err)
 			}
 			w.members[key(u)] = u
@@ -312,7 +332,11 @@ func TestC11_Sessions(t *testing.T) {
 			case 3: // re-weight a member (possibly S)
 				for _, u := range w.members {
 					if rapid.Bool().Draw(t, "pick") {
-						_ = w.p.UpsertServer(u, roundrobin.Weight(rapid.IntRange(1, 5).Draw(t, "nw")))
+						if w.direct[key(u)] {
+							_ = w.rr.UpsertServer(u, roundrobin.Weight(rapid.IntRange(1, 5).Draw(t, "nw")))
+						} else {
+							_ = w.p.UpsertServer(u, roundrobin.Weight(rapid.IntRange(1, 5).Draw(t, "nw")))
+						}
 						w.logf("reweight(%s)", u)
 						poolChange = true
 						break
@@ -329,7 +353,7 @@ func TestC11_Sessions(t *testing.T) {
 			case 5: // remove another server
 				for k, u := range w.members {
 					if k != key(S) && len(w.members) > 2 {
-						if err := w.p.RemoveServer(u); err != nil {
+						if err := w.remove(u); err != nil {
 							w.fail("remove(%s): %v", u, err)
 						}
 						delete(w.members, k)
@@ -345,7 +369,7 @@ func TestC11_Sessions(t *testing.T) {
 				w.logf("nextserver")
 			case 7: // remove S, or re-add it
 				if inPool && len(w.members) > 1 {
-					if err := w.p.RemoveServer(S); err != nil {
+					if err := w.remove(S); err != nil {
 						w.fail("remove(S=%s): %v", S, err)
 					}
 					delete(w.members, key(S))
